@@ -30,6 +30,10 @@ import (
 // ErrReadonly is the error value returned by read-only blobservers.
 var ErrReadonly = errors.New("this blobserver is read only")
 
+// ErrBlobTooLarge is returned by Receive when the source has more than
+// MaxBlobSize bytes.
+var ErrBlobTooLarge = fmt.Errorf("blob over the limit of %d bytes", MaxBlobSize)
+
 // ReceiveString uploads the blob given by the string s to dst
 // and returns its blobref and size.
 func ReceiveString(ctx context.Context, dst BlobReceiver, s string) (blob.SizedRef, error) {
@@ -49,7 +53,7 @@ func ReceiveNoHash(ctx context.Context, dst BlobReceiver, br blob.Ref, src io.Re
 }
 
 func receive(ctx context.Context, dst BlobReceiver, br blob.Ref, src io.Reader, checkHash bool) (sb blob.SizedRef, err error) {
-	src = io.LimitReader(src, MaxBlobSize)
+	src = &maxSizeReader{r: src, n: MaxBlobSize}
 	if checkHash {
 		h := br.Hash()
 		if h == nil {
@@ -71,6 +75,36 @@ func receive(ctx context.Context, dst BlobReceiver, br blob.Ref, src io.Reader, 
 // checkHashReader is an io.Reader that wraps the src Reader but turns
 // an io.EOF into an ErrCorruptBlob if the data read doesn't match the
 // hash of br.
+// maxSizeReader reads at most n bytes from r. Unlike an io.LimitReader it
+// doesn't silently truncate a longer source (which would accept the
+// MaxBlobSize-long prefix of an oversized upload as if it were the blob):
+// it fails once r yields more than n bytes.
+type maxSizeReader struct {
+	r io.Reader
+	n int64 // bytes remaining
+}
+
+func (m *maxSizeReader) Read(p []byte) (int, error) {
+	if len(p) == 0 {
+		return 0, nil
+	}
+	if m.n <= 0 {
+		// At the limit; r must be at EOF now.
+		var b [1]byte
+		n, err := m.r.Read(b[:])
+		if n > 0 {
+			return 0, ErrBlobTooLarge
+		}
+		return 0, err
+	}
+	if int64(len(p)) > m.n {
+		p = p[:m.n]
+	}
+	n, err := m.r.Read(p)
+	m.n -= int64(n)
+	return n, err
+}
+
 type checkHashReader struct {
 	h       hash.Hash
 	br      blob.Ref
